@@ -53,7 +53,12 @@ META = dict(
          "independent reference interpreter of the reading (harness/peg_ref.py) run against the real parse_string over "
          "exhaustive small scopes and random deep grammars.",
     note="Trusted: Lean kernel; axioms propext/Classical.choice/Quot.sound; the parse model (transcription of core.py, "
-         "node attributes extracted from the live objects, validated differentially on every run); the reference "
+         "node attributes extracted from the live objects, validated differentially on every run; for the terminals "
+         "Empty, NoMatch, Literal, _SingleCharLiteral, StringEnd, LineEnd, WordStart, WordEnd the transcription is not "
+         "trusted but PROVED equal - src_*_eq in PPProofs/Props/LeafSrc.lean, IndexError included - to the Lean "
+         "translation of the live parseImpl source that harness/py2lean.py regenerates on every run, modulo the "
+         "translator and PPModel/Base/PyStr.lean as the reading of CPython len/index/startswith/in, validated against "
+         "CPython itself by C14's stream pystr-vs-cpython); the reference "
          "interpreter is hand-written from the documentation and is only a search oracle.",
     technique="Lean 4 proof: closed soundness + determinism of the transcribed parser against a declarative big-step PEG "
               "semantics (plain fragment), clause theorems elsewhere; differential correspondence; independent "
@@ -73,6 +78,50 @@ THEOREMS = [
     "PP.Parse.plain_parse_eq_sem", "PP.Parse.plain_parse_returns_iff", "PP.Parse.parse_string_iff_sem",
     "PP.Parse.parse_string_all_iff_sem",
 ]
+
+# translator tie for the terminals (harness/py2lean.py -> Props/Gen/LeafSrc.lean -> Props/LeafSrc.lean): the leaf functions
+# of the parse model are proved equal to the machine-translated live source of the corresponding parseImpl methods
+LEAF_SRC_THEOREMS = [
+    "PP.Parse.src_empty_eq", "PP.Parse.src_noMatch_eq", "PP.Parse.src_lit_eq", "PP.Parse.src_lit1_eq",
+    "PP.Parse.src_stringEnd_eq", "PP.Parse.src_lineEnd_eq", "PP.Parse.src_wordStart_eq", "PP.Parse.src_wordEnd_eq",
+]
+THEOREMS = THEOREMS + LEAF_SRC_THEOREMS
+
+
+def leaf_source_tie(ctx, pp):
+    """regenerate Props/Gen/LeafSrc.lean from the live source; check the constructor invariants the theorems assume"""
+    from .. import py2lean
+    generated = {}
+    name = "leaf parseImpl methods lie in the translatable subset (PyLite)"
+    try:
+        generated["PPProofs/Props/Gen/LeafSrc.lean"] = py2lean.translate_impls(
+            py2lean.leaf_classes(pp), py2lean.LEAF_ATTRS, "PP.Gen.LeafSrc", "pyparsing/core.py")
+        ctx.obligation(name, True, "translated: " + ", ".join(c.__name__ for c in py2lean.leaf_classes(pp)))
+    except (py2lean.Untranslatable, OSError, TypeError, SyntaxError, IndexError, AttributeError) as ex:
+        ctx.obligation(name, False, str(ex)[:300])
+    # hypotheses of src_lit_eq / src_lit1_eq and the dispatch the model assumes, on live objects
+    from pyparsing import core
+    bad = []
+    for m in ["ab", "abc", "a b", "\n\n", "éa", "xyzzy"]:
+        e = pp.Literal(m)
+        if not (type(e) is pp.Literal and e.match == m and e.matchLen == len(m) and e.firstMatchChar == m[:1]):
+            bad.append(("Literal", m))
+    for m in ["a", " ", "\n", "é"]:
+        e = pp.Literal(m)
+        if not (type(e) is core._SingleCharLiteral and e.match == m and e.firstMatchChar == m):
+            bad.append(("_SingleCharLiteral", m))
+    for cls, kind in [(pp.WordStart, "wordChars"), (pp.WordEnd, "wordChars")]:
+        e = cls("ab")
+        if set(getattr(e, kind)) != {"a", "b"}:
+            bad.append((cls.__name__, kind))
+    for cls in py2lean.leaf_classes(pp):
+        if "parseImpl" not in cls.__dict__:
+            bad.append((cls.__name__, "parseImpl inherited"))
+    if type(pp.Literal("")) is not pp.Empty:
+        bad.append(("Literal('')", "is not Empty"))
+    ctx.obligation("constructor invariants assumed by src_lit_eq / src_lit1_eq / src_word*_eq hold on live objects",
+                   not bad, str(bad)[:300])
+    return generated
 
 # default whitespace, no actions, no ignorables, no '-', no classes whose reading the reference does not implement
 PEG_CFG = dict(actions=0.0, ws_variants=0.0, ignore=0.0, set_name=0.0, errorstop=0.0,
@@ -185,8 +234,10 @@ def run_ref(ctx, stream, jobs):
 
 
 def run(ctx):
-    common.import_pyparsing()
-    ctx.proof_leg("PPProofs.Props.C01", THEOREMS, extra_modules=("PPProofs.Props.C01Sem",))
+    pp_ = common.import_pyparsing()
+    generated = leaf_source_tie(ctx, pp_)
+    ctx.proof_leg("PPProofs.Props.C01", THEOREMS, generated=generated,
+                  extra_modules=("PPProofs.Props.C01Sem", "PPProofs.Props.LeafSrc"))
     ctx.rule.append("(1) exhaustive small scope: all grammars of <=3 nodes (thorough: + 4-node slice) over 8 leaves, 8 unary and "
                     "3 binary combinators x all strings of length <= L over {a,b,blank} (quick L=4, thorough L=6); (2) random "
                     "deep grammars with sharing (harness/gen.py, default whitespace, no actions) x inputs sampled from the "
